@@ -293,7 +293,7 @@ def observe (env : Env) (fl : Flavour) (sid : Nat) (current pending : Tr) (c : C
     request := c.request.canon
     current := if fl == .const then none else some current.canon
     pending := if fl == .guard then some pending.canon else none
-    plan := if fl == .const || !env.cfg.plans then none else some c.plan }
+    plan := if !env.cfg.plans then none else some c.plan }
 
 def occOf (seen : List (Method × Nat × Layer)) (k : Method × Nat × Layer) : Nat :=
   (seen.filter (· == k)).length
